@@ -12,8 +12,8 @@ import (
 	"github.com/bio-routing/bio-rd/routingtable/adjRIBIn"
 	"github.com/bio-routing/bio-rd/routingtable/adjRIBOut"
 	"github.com/bio-routing/bio-rd/routingtable/filter"
-	"github.com/bio-routing/bio-rd/routingtable/vrf"
 	"github.com/bio-routing/bio-rd/routingtable/locRIB"
+	"github.com/bio-routing/bio-rd/routingtable/vrf"
 
 	"verifharness/core"
 )
@@ -150,8 +150,10 @@ func (c *outClient) AddPath(pfx *bnet.Prefix, p *route.Path) error {
 	c.events = append(c.events, "add "+k)
 	return nil
 }
-func (c *outClient) AddPathInitialDump(pfx *bnet.Prefix, p *route.Path) error { return c.AddPath(pfx, p) }
-func (c *outClient) EndOfRIB()                                               {}
+func (c *outClient) AddPathInitialDump(pfx *bnet.Prefix, p *route.Path) error {
+	return c.AddPath(pfx, p)
+}
+func (c *outClient) EndOfRIB() {}
 func (c *outClient) RemovePath(pfx *bnet.Prefix, p *route.Path) bool {
 	k := c.k(pfx, p)
 	c.events = append(c.events, "remove "+k)
@@ -161,9 +163,12 @@ func (c *outClient) RemovePath(pfx *bnet.Prefix, p *route.Path) bool {
 	delete(c.view, k)
 	return true
 }
-func (c *outClient) ReplacePath(pfx *bnet.Prefix, o, n *route.Path) { c.RemovePath(pfx, o); c.AddPath(pfx, n) }
-func (c *outClient) RefreshRoute(*bnet.Prefix, []*route.Path)       {}
-func (c *outClient) Dispose()                                      {}
+func (c *outClient) ReplacePath(pfx *bnet.Prefix, o, n *route.Path) {
+	c.RemovePath(pfx, o)
+	c.AddPath(pfx, n)
+}
+func (c *outClient) RefreshRoute(*bnet.Prefix, []*route.Path) {}
+func (c *outClient) Dispose()                                 {}
 
 type riboutSess struct {
 	IBGP   bool   `json:"ibgp"`
